@@ -261,6 +261,8 @@ func runC09(c *report.Ctx) {
 
 	// ---- selection uses the flag ------------------------------------------------------
 	ruleEligibility(c, true)
+	rulePendingInputsAppend(c)
+	ruleRollbackReverseOrder(c)
 }
 
 func loopContainsBlock(hdr, b *ssa.BasicBlock) bool {
